@@ -2,6 +2,7 @@ package exec
 
 import (
 	"fmt"
+	"strings"
 	"testing"
 
 	"pgregory.net/rapid"
@@ -260,8 +261,28 @@ func genCaseC09(t *rapid.T) *Case {
 
 // checkC09: data equals the reference (which implements the stated inclusion
 // rule) and no resolver outside the reference's invocation set ran.
+// introspectionConditions: below __type and __schema a condition given through a variable (provided
+// or left to its default) decides exactly like the same condition written as a literal.
+func introspectionConditions(w *World, seed int) string {
+	const body = `{ __type(name: "Query") { name @skip(if: S) kind @include(if: I) fields { name @skip(if: S) type { kind @include(if: I) } } ... on __Type @include(if: I) { description } ... @skip(if: S) { interfaces { name } } } __schema { queryType { name @include(if: I) } types @skip(if: S) { name } directives { name @skip(if: S) @include(if: I) } } }`
+	sv, iv := seed&1 == 0, seed&2 == 0
+	withVars := "query Q($s: Boolean!, $i: Boolean = " + fmt.Sprint(iv) + ") " + strings.ReplaceAll(strings.ReplaceAll(body, "(if: S)", "(if: $s)"), "(if: I)", "(if: $i)")
+	literal := strings.ReplaceAll(strings.ReplaceAll(body, "(if: S)", "(if: "+fmt.Sprint(sv)+")"), "(if: I)", "(if: "+fmt.Sprint(iv)+")")
+	a := hx.Show(hx.Norm(w.Root.ResolveString(withVars, "", map[string]interface{}{"s": sv})))
+	b := hx.Show(hx.Norm(w.Root.ResolveString(literal, "", nil)))
+	if a != b {
+		return fmt.Sprintf("below __type / __schema the conditions decide differently when given through variables (s=%v provided, i=%v by default):\n  variables: %s\n  literals:  %s\nrequest: %s", sv, iv, hx.Trunc(a, 1200), hx.Trunc(b, 1200), withVars)
+	}
+	return ""
+}
+
 func checkC09(c *Case) (ds []hx.Discrepancy, exp *hx.Expect, res map[string]interface{}, w *World) {
 	ds, exp, res, w = checkC01(c)
+	if w != nil {
+		if p := introspectionConditions(w, c.ListSeed); p != "" {
+			ds = append(ds, hx.Discrepancy{Kind: "introspection-conditions", Detail: p})
+		}
+	}
 	if w == nil || exp == nil || exp.Rejected {
 		return
 	}
